@@ -47,9 +47,16 @@ def gen(rng, tier, index):
     mode = "events"
     if flavour in ("tcp", "atcp") and rng.random() < 0.3:
         mode = rng.choice(["watchdog_ok", "watchdog_silence"])
+    elif rng.random() < 0.15:
+        mode = "stop_during_retry"
     outcomes = ["ok", "ok", "fail", "timeout", "unreach"] if flavour in ("tcp", "atcp") else ["ok", "ok", "fail"]
-    plan = [rng.choice(outcomes) for _ in range(rng.randint(0, 6))] if mode == "events" else []
+    plan = [rng.choice(outcomes) for _ in range(rng.randint(0, 6))] if mode in ("events", "stop_during_retry") else []
     events = []
+    if mode == "stop_during_retry":
+        # stop() (or a user disconnect) lands while the connect loop is between two failed attempts
+        fails = ["fail", "fail", "timeout", "unreach"] if flavour in ("tcp", "atcp") else ["fail"]
+        plan = [rng.choice(fails) for _ in range(rng.randint(2, 5))] + ["ok", "ok"]
+        events = [[rng.choice(["stop", "stop", "disconnect"]), rng.choice([0.3, 0.9, 1.4, 2.2, 3.5]) * rt]]
     if mode == "events":
         for _ in range(rng.randint(1, 8)):
             name = rng.choice(EVENTS[flavour])
@@ -98,6 +105,26 @@ def run(case):
             if cfg["mode"] == "watchdog_silence":
                 dev.version_plan += [None] * 200  # after the drawn answers: silence
             world.start()
+            if cfg["mode"] == "stop_during_retry":
+                name, when = case["ops"][0]
+                world.advance(when)
+                faults[name + "_during_retry"] = 1
+                if dev.current() is None:
+                    probes["stop_while_connect_loop_sleeping"] = 1
+                if name == "stop":
+                    stop_called = sim.now
+                    world.stop()
+                    stop_returned = sim.now
+                    probes["stop_runs"] = 1
+                else:
+                    user_disconnected = sim.now
+                    if is_async:
+                        world.on_loop(gateway.tasks.transport.disconnect)
+                    else:
+                        gateway.tasks.transport.disconnect()
+                world.advance(60.0 + 6 * rt)
+                _oracle(world, cfg, violations, probes, losses, stop_called, stop_returned, user_disconnected, gateway)
+                raise _Done()
             # let the initial connect loop finish (bounded)
             world.advance(min(len(cfg["plan"]), 6) * 2.1 * rt + 0.2)
             if dev.current() is not None:
@@ -165,6 +192,8 @@ def run(case):
                 world.advance((len(cfg["lat"]) + 4.5) * (rt + 0.2) + 1.0)
             # ---------------------------------------------------------------- oracle
             _oracle(world, cfg, violations, probes, losses, stop_called, stop_returned, user_disconnected, gateway)
+        except _Done:
+            pass
         except kernel.SimAbort as exc:
             incomplete = str(exc)
         except kernel.Deadlock as exc:
@@ -183,6 +212,10 @@ def run(case):
             "sample": {"cfg": {k: v for k, v in cfg.items() if k != "sched"}, "events": case["ops"],
                        "attempts": [(round(a[0], 3), a[1]) for a in dev.attempts][:12],
                        "conn_events": [(round(e[0], 3), e[1], type(e[3]).__name__) for e in world.conn_events][:12]}}
+
+
+class _Done(Exception):
+    pass
 
 
 def _oracle(world, cfg, violations, probes, losses, stop_called, stop_returned, user_disc, gateway):
@@ -236,6 +269,19 @@ def _oracle(world, cfg, violations, probes, losses, stop_called, stop_returned, 
         last = lost[-1]
         if len(lost) == len(closed) and last[3] is not None and abs(last[0] - user_losses[-1]["t"]) < 0.5:
             violations.append(_vio("callback-args", {"event": "lost", "note": "user disconnect must report None", "exc": repr(last[3])}))
+    attempts = dev.attempts
+    # ---- the gateway never drops a link on its own while the peer answers ---------------------------
+    if cfg["mode"] in ("events", "stop_during_retry"):
+        hit = {l["conn"] for l in losses}
+        for conn in conns:
+            if conn.closed_at is None or conn.conn_id in hit:
+                continue
+            if end_user is not None and conn.closed_at >= end_user - 1e-9:
+                continue
+            violations.append(_vio("healthy-link-dropped", {"conn": conn.conn_id, "opened_at": round(conn.opened_at, 3),
+                                                            "closed_at": round(conn.closed_at, 3), "rt": rt,
+                                                            "attempts": [(round(a[0], 3), a[1]) for a in attempts][:8]}, flavour=flavour))
+            break
     # ---- reconnect supervision ----------------------------------------------------------------------
     attempts = dev.attempts
     fail_time = {"fail": 0.0, "timeout": rt, "unreach": min(1.0, rt) if is_async else min(3.0, rt)}
